@@ -57,6 +57,34 @@ def generate(rng: random.Random, tier: str):
                 except Exception as e:  # noqa: BLE001
                     ops.append(["?", {}, type(e).__name__])
             yield S.history_case(fam, tr.before, tr.steps, tr.doc, "mark-history", ops)
+    # single steps the transform API never records but a peer may send: node-mark steps whose mark has the TYPE of a
+    # mark the node carries but other attributes (removing link(a) from a node with link(b) is a no-op, and so must
+    # its inverse be), and replace steps with the structure flag set although their slice carries content
+    from prosemirror.model import Fragment, Slice
+    from prosemirror.transform import AddNodeMarkStep, RemoveNodeMarkStep, ReplaceStep
+    for fam in ("basic", "blockmarks"):
+        g, docs = S.family_docs(rng, fam, 6 if quick else 60)
+        sc_ = gen.family(fam)
+        typed = [mt for mt in sc_.marks.values() if mt.attrs]
+        for doc in docs:
+            cand = [(p, nd) for p, nd in S.all_positions_with_nodes(doc) if not nd.is_text]
+            rng.shuffle(cand)
+            for p, nd in cand[: (3 if quick else 8)]:
+                mt = rng.choice(typed)
+
+                def mk(v, mt=mt):
+                    return mt.create({an: (v if an != "id" else (1 if v == "foo" else 2)) for an in mt.attrs})
+                # give the node a mark of that type first (as a step), then remove / add the other variant
+                r = AddNodeMarkStep(p, mk("foo")).apply(doc)
+                base = r.doc if r.doc is not None else doc
+                for st in (RemoveNodeMarkStep(p, mk("bar")), AddNodeMarkStep(p, mk("bar")), RemoveNodeMarkStep(p, mk("foo"))):
+                    yield S.apply_case(fam, base, st, True, "node-mark-same-type")[0]
+            ps = S.boundary_positions(doc)
+            for _ in range(3 if quick else 10):
+                a = rng.choice(ps)
+                c = a if rng.random() < 0.6 else rng.choice([q for q in ps if q >= a][:4])
+                sl = Slice(Fragment.from_(sc_.text("X")), 0, 0) if rng.random() < 0.5 else g.slice_from(rng.choice(docs))
+                yield S.apply_case(fam, doc, ReplaceStep(a, c, sl, True), True, "structure-flag-with-content")[0]
 
 
 def rebuild(desc):
